@@ -127,6 +127,7 @@ func main() {
 	time.Local = time.FixedZone("UTC-5:30", -(5*3600 + 1800)) // the process does not live in UTC
 	r := lib.Start("C07", "exploration")
 	r.Rule = "round trips: 6 key specs x {JWS, COSE} x {local signer, plugin-backed raw, plugin-backed envelope} x {OCI artifact through an on-disk layout, blob} x content sizes {0,1,63,64,65,4 KiB,1 MiB,(8 MiB thorough)} x media types (with parameters) x metadata maps (empty, 1-5 pairs, unicode, JSON-special characters) x expiry {0, 1 h, 24 h, 10 y} x signing agent; quick: every (key spec, format, signer kind, blob/OCI) at least once plus a PRNG sample; distinct by the full tuple; all non-trivial"
+	r.Rule += "; plus round trips over an in-process registry (referrers API with paging; tag-schema fallback; deletions refused), through the three FromConfig constructors over separate user directories, with a plugin key chosen by the call's configuration, through the older constructor names and entry point, with exact attempt limits"
 	r.Assumptions = []string{"sizes < 2^53; metadata is valid UTF-8", "the verifying policy trusts the signer's root with the wildcard identity; revocation validators are scripted OK"}
 	ctx := context.Background()
 	signers := map[string]*lib.Ent{}
